@@ -18,8 +18,11 @@ impl Code {
         let mut local_variables = LocalVariables::new(interpreter);
         let instructions = parse
             .map(|pair| {
-                InstructionWithStr::new(pair, &mut local_variables)
-                    .and_then(|iws| Ok(iws.recreate(&mut local_variables)?))
+                // created in a scratch layer: a statement that rebinds a name its own initialiser uses
+                // (`f := f()`) must be folded against the previous binding; recreate then registers
+                // what the statement declares
+                let iws = InstructionWithStr::new(pair, &mut local_variables.create_layer())?;
+                Ok(iws.recreate(&mut local_variables)?)
             })
             .collect::<Result<_, Error>>()?;
         Ok(Self { instructions })
